@@ -971,6 +971,17 @@ func runFlow1(m *Model, r *RuleResult) {
 						}
 					}
 				}
+				// coordinate k of an element of a local slice of points (a clone that is stored into the output edge later)
+				if ia, ok := x.Addr.(*ssa.IndexAddr); ok {
+					if ia2, ok := ia.X.(*ssa.IndexAddr); ok {
+						if _, isCall := ia2.X.(*ssa.Call); isCall {
+							if k, isC := constInt(ia.Index); isC {
+								walkSlice(ia2.X, k, 0)
+								continue
+							}
+						}
+					}
+				}
 				ai := classifyAddr(x.Addr)
 				switch {
 				case len(ai.Locs) > 0 && ai.Locs[0] == pubNode+".X":
@@ -1705,6 +1716,118 @@ func flagGuardedFixpoint(f *ssa.Function) bool {
 	return true
 }
 
+// memoDescentAlongOutEdges: f belongs to the layering phase, tests a memo map keyed by its node parameter at entry (early
+// return), writes that map for the same key, and recurses only to the far end of an element of the node's Out list.
+func memoDescentAlongOutEdges(f *ssa.Function) bool {
+	if shortPkg(pkgPathOf(f)) != "internal/phase2" {
+		return false
+	}
+	self := staticCalls(f, func(c *ssa.Function) bool { return c == f })
+	if len(self) == 0 {
+		return false
+	}
+	// node parameter
+	ni := -1
+	for i, p := range f.Params {
+		if namedKey(p.Type()) == igNode {
+			ni = i
+			break
+		}
+	}
+	if ni < 0 {
+		return false
+	}
+	n := ssa.Value(f.Params[ni])
+	// memo test at entry
+	memo := ""
+	eachInstr(f, func(in ssa.Instruction) {
+		iff, ok := in.(*ssa.If)
+		if !ok {
+			return
+		}
+		var lk *ssa.Lookup
+		switch c := iff.Cond.(type) {
+		case *ssa.BinOp:
+			if l, ok := c.X.(*ssa.Lookup); ok {
+				if _, isC := c.Y.(*ssa.Const); isC {
+					lk = l
+				}
+			}
+		default:
+			if mp, k, ok := membershipTest(iff.Cond); ok && k == n {
+				memo = mapOriginFamily(mp, f, f)
+			}
+		}
+		if lk == nil || lk.Index != n {
+			return
+		}
+		for _, s := range iff.Block().Succs {
+			if _, isRet := s.Instrs[len(s.Instrs)-1].(*ssa.Return); isRet {
+				memo = mapOriginFamily(lk.X, f, f)
+			}
+		}
+	})
+	if memo == "" {
+		return false
+	}
+	written := false
+	eachInstr(f, func(in ssa.Instruction) {
+		if mu, ok := in.(*ssa.MapUpdate); ok && mu.Key == n && mapOriginFamily(mu.Map, f, f) == memo {
+			written = true
+		}
+	})
+	if !written {
+		return false
+	}
+	isOutElem := func(v ssa.Value) bool {
+		u, ok := v.(*ssa.UnOp)
+		if !ok || u.Op != token.MUL {
+			return false
+		}
+		ia, ok := u.X.(*ssa.IndexAddr)
+		if !ok {
+			return false
+		}
+		ld, ok := ia.X.(*ssa.UnOp)
+		if !ok || ld.Op != token.MUL {
+			return false
+		}
+		fa, ok := ld.X.(*ssa.FieldAddr)
+		if !ok {
+			return false
+		}
+		base, steps := fieldChain(fa)
+		return base == n && locOfSteps(steps) == igNode+".Out"
+	}
+	for _, s := range self {
+		args := s.Common().Args
+		if ni >= len(args) {
+			return false
+		}
+		ok := false
+		switch a := args[ni].(type) {
+		case *ssa.Call:
+			// e.ConnectedNode(n) / a helper taking the edge
+			for _, x := range a.Call.Args {
+				if isOutElem(x) {
+					ok = true
+				}
+			}
+		case *ssa.UnOp:
+			if fa, isFA := a.X.(*ssa.FieldAddr); isFA && a.Op == token.MUL {
+				base, steps := fieldChain(fa)
+				if locOfSteps(steps) == igEdge+".To" && isOutElem(base) {
+					ok = true
+				}
+			}
+		}
+		if !ok {
+			return false
+		}
+	}
+	return true
+}
+
 // subSliceRecursion: every recursive call of f passes, for one slice parameter p of f, a slice expression p[lo:hi] with at
 // least one bound given.
 func subSliceRecursion(f *ssa.Function) bool {
@@ -1881,6 +2004,9 @@ func runRec1(m *Model, r *RuleResult) {
 		case flagGuardedFixpoint(t) && !ctl:
 			r.add(Obligation{Key: key, Pos: pos, Desc: "fix-point on a flag: the only recursive calls are taken when a boolean flag was set during this run of the body; each repetition strictly increases a coordinate (PROG-1); an upper bound on the coordinates, hence convergence, is not decided statically", Verdict: "holds"})
 			r.stat("flag_fixpoints", 1)
+		case memoDescentAlongOutEdges(t) && !ctl:
+			r.add(Obligation{Key: key, Pos: pos, Desc: "memoised descent of the layering phase: the result for the node parameter is looked up at entry (early return) and stored in the same map afterwards, and every recursive call goes to the other end of an edge taken from the node's Out list; it terminates because phase 1 leaves the graph acyclic (ORD-5/PAIR-1/ACYC-1, re-checked by hasCycles) - acyclicity itself is not decided here", Verdict: "holds"})
+			r.stat("memo_descents", 1)
 		case subSliceRecursion(t) && !ctl:
 			r.add(Obligation{Key: key, Pos: pos, Desc: "divide and conquer: every recursive call receives a proper sub-slice expression (p[:i] / p[j:]) of the function's own slice parameter; AFF-9 decides that the two halves are path[:k+1] and path[k:]; that 0 < k < len-1 (strictly shorter halves) is a run-time fact of the error maximum and is not decided", Verdict: "holds"})
 			r.stat("subslice_recursions", 1)
